@@ -287,7 +287,9 @@ func runCase(ctx context.Context, rep *mon.Reporter, rng *mon.Rand, c *Case, idx
 			invKeys = append(invKeys, out.key())
 			if !c.judge(rep, "invoke", ordStr, expI, out) {
 				conform = false
-				c.invokeOK = false
+				if out.Kind != "value" {
+					c.invokeOK = false // Invoke itself fails (not merely a wrong value)
+				}
 			}
 			c.checkSnap(rep, snap, "invoke", ordStr)
 		}
@@ -399,6 +401,15 @@ func (c *Case) attribute(mode string, e *expectation, o *outcome) string {
 		}
 		return refClass
 	}
+	if e != nil && strings.Contains(site, "convertTo") {
+		// raised while assigning: an untyped nil that reached a typed position is the one finding of the
+		// reference that concerns the target side
+		for _, k := range []string{"interface-source-value-nil", "interface-source-path-yields-nil"} {
+			if e.All[k] {
+				return k
+			}
+		}
+	}
 	if mode == "stream" && c.hasRtChecked() && (strings.HasSuffix(site, "newGenericHelper.func") || (site == "" && c.invokeOK)) {
 		// raised while the stream form of the pre-node converter is set up, or an error although the same
 		// compiled workflow conforms under Invoke: the failure is specific to the stream form
@@ -423,7 +434,7 @@ func (c *Case) judge(rep *mon.Reporter, mode, ord string, e *expectation, o outc
 	case "panic":
 		// a value was due: "run-failed" (shared with unexpected errors); an error was acceptable or required: "panic"
 		sig := "C15/panic/" + cls
-		if cls == "no-known-hazard" || cls == fRtInStreamMode || cls == c.Struct {
+		if cls == "no-known-hazard" || cls == fRtInStreamMode || cls == c.Struct || !(e.May || e.Must) {
 			sig = "C15/run-failed/" + cls
 		}
 		if cls == "no-known-hazard" {
@@ -525,7 +536,7 @@ func hashAny(v any) uint64 {
 	if v == nil {
 		return 0x9e3779b97f4a7c15
 	}
-	return hashValue(reflect.ValueOf(v))
+	return hashValue(reflect.ValueOf(v), 0)
 }
 
 func mix64(h, x uint64) uint64 {
@@ -535,9 +546,12 @@ func mix64(h, x uint64) uint64 {
 }
 
 // hashValue: order-independent for maps, sensitive to nil-ness, dynamic types and every leaf.
-func hashValue(v reflect.Value) uint64 {
+func hashValue(v reflect.Value, depth int) uint64 {
 	if !v.IsValid() {
 		return 1
+	}
+	if depth > 40 {
+		return 14 // cyclic value (see toTree)
 	}
 	switch v.Kind() {
 	case reflect.String:
@@ -552,14 +566,14 @@ func hashValue(v reflect.Value) uint64 {
 	case reflect.Struct:
 		h := uint64(6)
 		for i := 0; i < v.NumField(); i++ {
-			h = mix64(h, hashValue(v.Field(i)))
+			h = mix64(h, hashValue(v.Field(i), depth+1))
 		}
 		return h
 	case reflect.Ptr:
 		if v.IsNil() {
 			return 7
 		}
-		return mix64(8, hashValue(v.Elem()))
+		return mix64(8, hashValue(v.Elem(), depth+1))
 	case reflect.Map:
 		if v.IsNil() {
 			return 9
@@ -568,7 +582,7 @@ func hashValue(v reflect.Value) uint64 {
 		it := v.MapRange()
 		var sum uint64
 		for it.Next() {
-			sum += mix64(hashValue(it.Key()), hashValue(it.Value()))
+			sum += mix64(hashValue(it.Key(), depth+1), hashValue(it.Value(), depth+1))
 		}
 		return mix64(h, sum+uint64(v.Len()))
 	case reflect.Interface:
@@ -576,7 +590,7 @@ func hashValue(v reflect.Value) uint64 {
 			return 11
 		}
 		e := v.Elem()
-		return mix64(mix64(12, mon.HashStr(e.Type().String())), hashValue(e))
+		return mix64(mix64(12, mon.HashStr(e.Type().String())), hashValue(e, depth+1))
 	default:
 		return mix64(13, mon.HashStr(fmt.Sprintf("%v", v.Interface())))
 	}
